@@ -731,6 +731,7 @@ class Generator:
             body = self.rw_unwrap(body, spec)
         body = self.rw_ptr_swap(body, spec)
         body = self.rw_bool_then(body)
+        body = self.rw_vec_unwind(body)
         body = self.rw_ref_wild(body)
         body = self.rw_unsafe_stubs(body, spec)
         # descending k: replacing an earlier occurrence must not renumber the later ones
@@ -865,6 +866,22 @@ class Generator:
         for t in toks:
             t.line = t.line - 1 + l0
         return toks
+
+    def rw_vec_unwind(self, body):
+        """R20: `self.data.clear()` / `self.data.resize(n, v)` on the owned array's vector run caller code
+        (element destructors / Clone) that may panic after the vector's length has already changed: the
+        stubs require that the dimensions were zeroed BEFORE the call (C11: a caught panic leaves a valid array)."""
+        txt = text_of(body)
+        if "self.data.clear(" not in txt.replace(" ", "") and "self.data.resize(" not in txt.replace(" ", ""):
+            return body
+        new = re.sub(r"self\s*\.\s*data\s*\.\s*clear\s*\(\s*\)",
+                     "{ let ghost __dz = self.num_cols == 0 && self.num_rows == 0; stub_vec_clear(&mut self.data, Ghost(__dz)) }", txt)
+        new = re.sub(r"self\s*\.\s*data\s*\.\s*resize\s*\(",
+                     "stub_vec_resize(&mut self.data, Ghost(self.num_cols == 0 && self.num_rows == 0), ", new)
+        if new == txt:
+            return body
+        self.count("R20-vec-unwind-state")
+        return self.relex(new, body)
 
     def rw_bool_then(self, body):
         """R17: `(COND).then(move || EXPR)` -> `if COND { Some(EXPR) } else { None }` (std's definition of bool::then)."""
